@@ -367,6 +367,11 @@ func (s *Sim) endRun() {
 //
 //go:norace
 func (s *Sim) abort(kind, msg string) {
+	if kind == "self-deadlock" || kind == "unlock-unlocked" {
+		buf := make([]byte, 16384)
+		n := runtime.Stack(buf, false)
+		msg += "\n" + string(buf[:n])
+	}
 	s.setFail(kind, msg)
 	t := s.cur
 	t.state = tsBlocked
